@@ -192,4 +192,47 @@ def u1000Ignores (d : Directive) (file : String) (line : Nat) : Bool :=
   d.nodePos.file = file &&
   (d.cmd = "file-ignore" || d.nodePos.line = line)
 
+/-! ### unused/unused.go, `(*graph).entry`: the `ignores` map, transliterated
+
+```go
+ignores := map[ignoredKey]struct{}{}
+for _, dir := range g.directives {
+    if dir.Command != "ignore" && dir.Command != "file-ignore" { continue }
+    if len(dir.Arguments) < 2 { continue }
+    if slices.ContainsFunc(strings.Split(dir.Arguments[0], ","), func(check string) bool {
+        m, _ := filepath.Match(strings.ToLower(check), "u1000"); return m }) {
+        pos := g.fset.PositionFor(dir.Node.Pos(), false)
+        switch dir.Command {
+        case "ignore":      key = ignoredKey{pos.Filename, pos.Line}
+        case "file-ignore": key = ignoredKey{pos.Filename, -1}
+        }
+        ignores[key] = struct{}{}
+    }
+}
+… for obj := range g.objects { _, ok := ignores[{file, line}]; if !ok { _, ok = ignores[{file, -1}] }; if ok { g.use(obj, nil) … } }
+```
+The key's line is `some line` for a line directive and `none` for Go's `-1`. -/
+
+/-- one iteration of the loop filling `ignores`: the key the directive contributes, if any -/
+def u1000Key (d : Directive) : Option (String × Option Nat) :=
+  if d.cmd ≠ "ignore" ∧ d.cmd ≠ "file-ignore" then none
+  else match firstOfTwo d.args with
+    | none => none
+    | some a0 =>
+      if (splitOnChar ',' a0).any (fun check => glob (lower check) "u1000") then
+        some (d.nodePos.file, if d.cmd = "ignore" then some d.nodePos.line else none)
+      else none
+
+/-- the `ignores` map (as the list of its keys) -/
+def u1000Keys (dirs : List Directive) : List (String × Option Nat) := dirs.filterMap u1000Key
+
+/-- the two lookups `ignores[key1]`, `ignores[key2]` for an object declared at `file:line` -/
+def u1000Used (keys : List (String × Option Nat)) (file : String) (line : Nat) : Bool :=
+  keys.contains (file, some line) || keys.contains (file, none)
+
+/-- the objects (given by the position of their declaration) that the loop over `g.objects`
+marks as used because of a directive -/
+def u1000Marked (dirs : List Directive) (objs : List (String × Nat)) : List (String × Nat) :=
+  objs.filter fun o => u1000Used (u1000Keys dirs) o.1 o.2
+
 end Verif.C10
